@@ -10,6 +10,13 @@ Model side: the Lean recogniser `Rec.parse` runs on the three generated graphs (
 `unsep tx unproved`) with the token tables of the text (real `re` / string matching); the driver also evaluates
 the lexer hypotheses of theorem C24_agree_partial on those tables.
 
+Configurations and histories: the grammar compiler is reached through metamodel_from_str(text, **options) and keeps
+a process-wide parser cache (textx.lang.textX_parsers); the 'textx' language is a registered, cached meta-model.
+Neither the options of the language being defined nor earlier uses of textX in the same process may change which
+grammar texts are accepted.  `history_cases` runs (history, options, batch of texts) triples in FRESH processes
+(harness/c24_worker.py) and applies the same direct oracle per text; a fraction of the in-process cases is
+compiled with random options.  The generator also changes the letter case of tokens (the language is case-sensitive).
+
 Tie T: harness/c24_gen.py regenerates lean/TextxVerif/Gen/Grammars.lean from the two live parser models on every
 run; Props/C24.lean re-checks `Rec.check` on them in Lean's kernel.
 """
@@ -35,7 +42,55 @@ SEPS = [(" ", 10), ("\n", 3), ("", 4), ("  ", 1), ("\t", 1), ("\n    ", 1)]
 OPS = ["=", "*=", "+=", "?="]
 JUNK = ["[", "]", "(", ")", "|", ":", ";", ",", ".", "..", "^", "~", "*", "+", "?", "#", "-", "!", "&", "=", "+=", "/",
         "'", '"', "+m:", "+p:", "+pm:", "+mm:", "+x:", "eolterm", "import", "reference", "as", "//", "/*", "*/", "\\",
-        "parent", "0", "9a", "a.b", "a.b.c", ".a", "a-b", "é"]
+        "parent", "0", "9a", "a.b", "a.b.c", ".a", "a-b", "é",
+        # letter-case variants of the keywords of the textX language (the language is case-sensitive)
+        "EOLTERM", "Eolterm", "IMPORT", "Import", "REFERENCE", "Reference", "AS", "As", "PARENT", "Parent", "+M:", "+P:",
+        "+Pm:", "+mP:"]
+
+# The keywords of the textX language, each in a context where it is required / allowed; `{}` is replaced by the
+# keyword in several letter cases (probe texts for the configurations / histories below and for the crafted list).
+KEYWORD_CONTEXTS = [
+    ("eolterm", "A: x+=ID[{}];"), ("eolterm", "A: 'a'*[',' {}];"), ("import", "{} base A: 'a';"),
+    ("reference", "{} lang as l A: 'a';"), ("as", "reference lang {} l A: 'a';"), ("parent", "A: b=[B|ID|{}(A).b];"),
+    ("+m:", "A: b=[B|ID|{}x];"), ("+p:", "A: b=[B|ID|{}x];"), ("+mp:", "A: b=[B:ID|{}x.y];"),
+    ("ID", "A: x={};"), ("INT", "A: x+={}[','];"), ("STRING", "A: {};"),
+]
+
+
+def case_variants(kw):
+    out = []
+    for v in (kw, kw.upper(), kw.lower(), kw.title(), kw[:-2] + kw[-2:].swapcase()):
+        if v not in out:
+            out.append(v)
+    return out
+
+
+KEYWORD_PROBES = [ctx.format(v) for kw, ctx in KEYWORD_CONTEXTS for v in case_variants(kw)]
+# texts that depend on the whitespace / keyword-boundary settings of the parser that reads the grammar
+LAYOUT_PROBES = [
+    "A:\n\t'a'\r\n;\n", "A :\t'a' ;", "importbase A:'a';", "referencel asx A:'a';", "A:x+=ID[eolterm','];",
+    "A:x+=ID[','eolterm];", "A:b=[B|ID|parent(A).b];", "A: b=[B|ID|parentx];", "A: b=[B|ID| +m: x];", "A:'a'\x0c;",
+    "A: 'a' ;\x0b", "A:\xa0'a';", "import\tbase\nA\n:\n'a'\n;", "A: x=INTx y=IDs;", "A: /a/ //c\n/b/;",
+]
+
+# Meta-model options (TextXMetaModel keyword arguments).  None of them may influence which grammar texts the
+# grammar compiler parses: they configure the language being defined, not the textX language itself.
+MM_OPTIONS = [
+    ("ignore_case", [True]), ("skipws", [False]), ("ws", ["\t", " ", "\n\r\t .;:"]), ("autokwd", [True]),
+    ("memoization", [True]), ("use_regexp_group", [True]), ("auto_init_attributes", [False]),
+    ("textx_tools_support", [True]), ("debug", [True]),
+]
+# earlier, unrelated uses of textX in the same process (histories): (grammar, model or None)
+HISTORY_GRAMMARS = [
+    ("Program: 'begin' commands*=Command 'end'; Command: 'print' what=STRING;", 'begin print "x" end'),
+    ("Model: items+=Item[',']; Item: name=ID ('=' v=INT)?;", "a=1, b"),
+    ("M: 'x';", None),
+    ("Model: refs+=[Model|ID|+m:^refs];", None),
+    ("A: 'unclosed", None),       # a syntax error is part of a realistic history
+    ("A: x=Unknown;", None),      # so is a semantic error
+    ("import nowhere A: 'a';", None),
+]
+HISTORY_TEXTX = ["A: 'a';", "A: b=[B|ID|parent(A).b];", "A: 'a'*[eolterm", ""]
 
 
 class TextGen:
@@ -195,7 +250,7 @@ def mutate(rng, toks):
     for _ in range(rng.weighted([(1, 6), (2, 3), (3, 1)])):
         if not toks:
             break
-        k = rng.weighted([("drop", 4), ("dup", 2), ("swap", 2), ("ins", 4), ("rep", 3), ("trunc", 1)])
+        k = rng.weighted([("drop", 4), ("dup", 2), ("swap", 2), ("ins", 4), ("rep", 3), ("trunc", 1), ("case", 3)])
         i = rng.below(len(toks))
         if k == "drop":
             del toks[i]
@@ -209,7 +264,99 @@ def mutate(rng, toks):
             toks[i] = rng.choice(JUNK + IDENTS[:6] + STRINGS[:4] + REGEXES[:3])
         elif k == "trunc":
             del toks[i:]
+        elif k == "case":
+            # the textX language is case-sensitive: change the letter case of a token that has letters
+            # (prefer keyword-like tokens, they are the ones whose case matters)
+            cand = [j for j, t in enumerate(toks) if t.lower() in CASE_TOKENS] or \
+                   [j for j, t in enumerate(toks) if t.lower() != t.upper()]
+            if cand:
+                j = rng.choice(cand)
+                t = toks[j]
+                toks[j] = rng.choice([t.upper(), t.lower(), t.title(), t.swapcase(), t[:1] + t[1:].swapcase()])
     return toks
+
+
+CASE_TOKENS = {"eolterm", "import", "reference", "as", "parent", "+m:", "+p:", "+pm:", "+mp:", "+mm:", "+pp:", "+mpm:"}
+
+
+def random_options(rng, allow_debug=False, p=0.25):
+    """a random meta-model configuration (each option with probability p)"""
+    out = {}
+    for name, vals in MM_OPTIONS:
+        if name == "debug" and not allow_debug:
+            continue
+        if rng.chance(p):
+            out[name] = rng.choice(vals)
+    return out
+
+
+def random_history(rng, first_opts=None):
+    """a sequence of earlier uses of textX; `first_opts` (if given) configures the first compilation"""
+    steps = []
+    for i in range(rng.weighted([(1, 5), (2, 3), (3, 2)]) if first_opts is not None else rng.weighted([(0, 2), (1, 4), (2, 3), (3, 1)])):
+        if i == 0 and first_opts is not None:
+            g, m = rng.choice(HISTORY_GRAMMARS[:4])
+            steps.append({"do": "compile", "grammar": g, "opts": dict(first_opts), "model": m})
+        elif rng.chance(0.3):
+            steps.append({"do": "textx", "text": rng.choice(HISTORY_TEXTX)})
+        else:
+            g, m = rng.choice(HISTORY_GRAMMARS)
+            o = random_options(rng, p=0.2)
+            if m is not None and (o.get("skipws") is False or "ws" in o):
+                m = None  # the example model is written for the default whitespace handling
+            steps.append({"do": "compile", "grammar": g, "opts": o, "model": m})
+    return steps
+
+
+def history_cases(rng, tier):
+    """configurations x histories, each run in a fresh process (harness/c24_worker.py).
+
+    For a set of meta-model options o: (a) o configures the FIRST compilation of the process and the checked texts
+    are compiled with default options afterwards (state kept between compilations), (b) no history, the checked
+    texts themselves are compiled with o (option reaching the parser of the textX language).  Quick: o = all
+    options at once, a random half, a random set + debug; thorough: additionally one option at a time.  Then random
+    combinations of options and histories (incl. failed compilations and uses of the 'textx' language)."""
+    def texts(r, k, small=False):
+        probes = KEYWORD_PROBES + LAYOUT_PROBES
+        if small:
+            probes = r.sample(probes, 20)
+        out = list(probes)
+        for i in range(k):
+            rr = r.fork(i)
+            g = TextGen(rr, rr.weighted([(4, 3), (8, 4), (14, 2)]))
+            toks = g.grammar()
+            if rr.chance(0.5):
+                toks = mutate(rr, toks)
+            out.append(render(rr, toks))
+        return out
+
+    k = 10 if tier == "quick" else 40
+    quick = tier == "quick"
+
+    def pair(r, o, label, small):
+        # (the debug variant of the compiler is a separate parser: it is reached only by debug compilations)
+        yield {"kind": "history", "history": random_history(r, first_opts=o), "opts": {"debug": True} if o.get("debug") else {},
+               "texts": texts(r.fork("a"), 0 if small else k, small), "origin": f"history:first-compilation-with-{label}"}
+        yield {"kind": "history", "history": [], "opts": o,
+               "texts": texts(r.fork("b"), 0 if small else k, small), "origin": f"history:texts-compiled-with-{label}"}
+
+    # all options at once (any option that reaches the parser of the textX language shows; the shrinker isolates it)
+    r = rng.fork("all")
+    yield from pair(r, {name: r.choice(vals) for name, vals in MM_OPTIONS if name != "debug"}, "all-options", False)
+    r = rng.fork("half")
+    yield from pair(r, random_options(r, p=0.5), "half-of-the-options", quick)
+    # the debug variant of the grammar compiler is a separate (cached) parser; it traces every step: small batches
+    r = rng.fork("debug")
+    yield from pair(r, dict(random_options(r, p=0.5), debug=True), "debug", True)
+    if not quick:  # one factor at a time
+        for name, vals in MM_OPTIONS:
+            r = rng.fork("opt:" + name)
+            yield from pair(r, {name: r.choice(vals)}, name, name == "debug")
+    for i in range(3 if quick else 24):
+        r = rng.fork(f"rnd:{i}")
+        first = random_options(r, p=0.35) if r.chance(0.6) else None
+        yield {"kind": "history", "history": random_history(r, first_opts=first), "opts": random_options(r, p=0.3),
+               "texts": texts(r.fork("t"), k, quick), "origin": "history:random"}
 
 
 # near-miss texts around the constructs where the two grammars were (or could be) different
@@ -228,7 +375,7 @@ CRAFTED = [
     "A: 'a' ;;", "A: ;", "A: 'a'", "A 'a';", "A: ('a' | );", "A: !'a' &B -;", "A: 'a'?[','];", "A: 'a'#[','] 'b'-*;", "A: 'a'*-;",
     "A: x?=INT[','];", "A: x = y = 'a';", "A: x=('a');", "A: x=[A];", "A: x=[A.B.C];", "A: x+=[A:ID|a][','];", "A: 'unclosed;",
     "A: /unclosed;", "A: 'a'; /* unclosed", "A: 'a'; // trailing", "A: 'a';\n/**/B: A;", "A:'a';B:A;C:B|A;",
-]
+] + [ctx.format(kw.upper()) for kw, ctx in KEYWORD_CONTEXTS] + LAYOUT_PROBES
 
 
 # ---------------------------------------------------------------------------
@@ -323,7 +470,11 @@ class Prop(Check):
     RULE = ("grammar texts over the full textX syntax (imports, references with alias, rule parameters, sequences, choices, "
             "all repeat operators with modifiers, predicates, suppression, the four assignment operators, match / rule / "
             "link references with match rule and RREL incl. flags, fixed names, parent(), brackets, dots, comments) rendered "
-            "with random whitespace / glued tokens / comments; ~45% token-level mutations; crafted near-miss texts and the "
+            "with random whitespace / glued tokens / comments; ~45% token-level mutations (incl. letter-case changes of "
+            "keywords); 30% of the texts compiled with random meta-model options; (history, options, texts) triples in "
+            "fresh processes: first compilation of the process / the checked texts configured with all, half, one "
+            "(thorough) of the meta-model options incl. debug, random histories of compilations, failed compilations and "
+            "uses of the 'textx' language, keyword-case and layout probe texts; crafted near-miss texts and the "
             "repo's own .tx files; each text parsed by both real parsers and by the Lean recogniser on both generated "
             "graphs; non-trivial = accepted, or rejected with the furthest failure at position >= 4")
     MODELLED = ("regenerated every run (T): both Arpeggio parser models (lang.py via ParserPython, compiled textx.tx), common "
@@ -344,6 +495,9 @@ class Prop(Check):
         "(x sep)* x formulation is proved under CleanRun (the run meets no trailing separator; all accepted texts) or "
         "NoTrailingSep (all positions); for texts with a trailing RREL separator it is covered by correspondence on every case",
         "compiler side = parse stage: TextXSyntaxError caused by NoMatch (DESIGN Reading)",
+        "configurations / histories are observed on the implementation only (fresh-process worker + direct oracle); the "
+        "Lean recogniser is a function of the text and the regenerated graphs (token identity includes ignore_case and "
+        "the regex flags), so a history-dependent acceptance shows as an oracle failure, not as a model disagreement",
     ]
 
     def TRANSLATE(self):
@@ -372,7 +526,12 @@ class Prop(Check):
             if r.chance(0.45):
                 toks = mutate(r, toks)
                 kind = "mutated"
-            yield {"text": render(r, toks), "toks": toks, "origin": kind}
+            case = {"text": render(r, toks), "toks": toks, "origin": kind}
+            if r.chance(0.3):
+                # the compiling meta-model's configuration must not matter (in-process; fresh processes below)
+                case["copts"] = random_options(r.fork("copts"), p=0.3)
+            yield case
+        yield from history_cases(rng.fork("histories"), tier)
 
     def repo_files(self):
         out = []
@@ -392,11 +551,14 @@ class Prop(Check):
         from textx import metamodel_from_str
         from textx.exceptions import TextXSyntaxError
 
+        if case.get("kind") == "history":
+            return self.impl_history(case)
         text = case["text"]
+        copts = case.get("copts") or {}
 
         def compiler():
             try:
-                metamodel_from_str(text)
+                metamodel_from_str(text, **copts)
                 return {"acc": True, "stage": "ok"}
             except TextXSyntaxError as e:
                 if isinstance(e.__cause__, NoMatch):
@@ -427,13 +589,38 @@ class Prop(Check):
             except Exception as e:
                 return {"acc": None, "other": type(e).__name__, "msg": str(e)[:200]}
 
-        obs = {"compiler": with_timeout(compiler, 10), "direct": with_timeout(direct, 10),
-               "tx": with_timeout(selfhosted, 10), "len": len(text)}
+        # hang detection, not a performance requirement: on an overloaded machine the limit grows with the load
+        # (beyond CASE_TIMEOUT the runner's own alarm fires and the case is retried alone with a 6x limit)
+        try:
+            lim = 10 * max(1.0, min(6.0, os.getloadavg()[0] / (os.cpu_count() or 1)))
+        except OSError:
+            lim = 10
+        obs = {"compiler": with_timeout(compiler, lim), "direct": with_timeout(direct, lim),
+               "tx": with_timeout(selfhosted, lim), "len": len(text)}
         obs["rows"] = token_rows(toks, text)
         return obs
 
+    def impl_history(self, case):
+        """history + configuration + texts in a fresh Python process"""
+        import json
+        import subprocess
+        import sys
+
+        req = {"repo": REPO, "history": case.get("history", []), "opts": case.get("opts", {}), "texts": case["texts"]}
+        worker = os.path.join(os.path.dirname(os.path.dirname(os.path.abspath(__file__))), "c24_worker.py")
+        env = dict(os.environ, PYTHONHASHSEED="0", PYTHONDONTWRITEBYTECODE="1")
+        # no timeout of its own: the runner's per-case alarm interrupts (subprocess.run then kills the child) and
+        # the runner retries a timed-out case alone with a 6x limit
+        p = subprocess.run([sys.executable, worker], input=json.dumps(req), capture_output=True, text=True, env=env)
+        if p.returncode != 0 or not p.stdout.strip():
+            return {"hist": True, "worker_error": f"exit {p.returncode}: {(p.stderr or '')[-400:]}"}
+        out = json.loads(p.stdout)
+        return {"hist": True, "steps": out["history"], "results": out["results"]}
+
     # -- model -----------------------------------------------------------------
     def model_req(self, case, obs):
+        if "hist" in obs:
+            return None  # the Lean recogniser has no history / configuration: acceptance is a function of the text
         if "lexhyp" in obs:
             return {"op": "info"}
         return {"op": "accept", "input": case["text"], "toks": obs["rows"], "fuel": 3000 + 80 * len(case["text"])}
@@ -482,6 +669,8 @@ class Prop(Check):
     def oracle(self, case, obs):
         if "lexhyp" in obs:
             return None
+        if "hist" in obs:
+            return self.oracle_history(case, obs)
         c, d, t = obs["compiler"], obs["direct"], obs["tx"]
         for o, nm in ((c, "metamodel_from_str"), (d, "lang parser"), (t, "grammar_model_from_str")):
             if isinstance(o, dict) and o.get("other") == "Timeout":
@@ -497,23 +686,73 @@ class Prop(Check):
             return f"textx.tx accepts the text, grammar compiler reports a syntax error at {c.get('line')}:{c.get('col')}"
         return None
 
+    def oracle_history(self, case, obs):
+        if "worker_error" in obs:
+            return f"fresh-process worker failed: {obs['worker_error']}"
+        where = (f"after the history {[self._step(s) for s in case.get('history', [])]} "
+                 f"with meta-model options {case.get('opts', {})}")
+        for text, r in zip(case["texts"], obs["results"]):
+            c, t = r["c"], r["t"]
+            if t.get("acc") is None:
+                return (f"{where}: text {text!r} accepted by the textx.tx parser cannot be inspected as a model: "
+                        f"{t.get('other')} {t.get('msg', '')}")
+            if c["acc"] != t["acc"]:
+                if c["acc"]:
+                    return (f"{where}: grammar compiler parses {text!r}, textx.tx rejects it at "
+                            f"{t.get('line')}:{t.get('col')}")
+                return (f"{where}: textx.tx accepts {text!r}, grammar compiler reports a syntax error at "
+                        f"{c.get('line')}:{c.get('col')}")
+        return None
+
+    @staticmethod
+    def _step(s):
+        if s.get("do") == "compile":
+            return f"metamodel_from_str({s['grammar']!r}, **{s.get('opts', {})})"
+        return f"grammar_model_from_str({s.get('text')!r})"
+
     def classify(self, case, obs, failure):
         return None
 
     def nontrivial(self, case, obs):
         if "lexhyp" in obs:
             return True
+        if "hist" in obs:
+            return bool(case.get("history") or case.get("opts")) and any(r["c"]["acc"] for r in obs.get("results", []))
         d = obs["direct"]
         return bool(d.get("acc")) or (d.get("pos") or 0) >= 4
 
     def shrink(self, case):
+        if case.get("kind") == "history":
+            texts, hist, opts = case["texts"], case.get("history", []), case.get("opts", {})
+            base = {"kind": "history", "origin": "shrunk"}
+            if len(texts) > 1:
+                # bisect the batch first (each candidate costs one fresh process), then single texts
+                h = len(texts) // 2
+                yield dict(base, history=hist, opts=opts, texts=texts[:h])
+                yield dict(base, history=hist, opts=opts, texts=texts[h:])
+                return
+            for i in range(len(hist)):
+                yield dict(base, history=hist[:i] + hist[i + 1:], opts=opts, texts=texts)
+            for i, st in enumerate(hist):
+                for k in sorted(st.get("opts", {})):
+                    st2 = dict(st, opts={a: b for a, b in st["opts"].items() if a != k})
+                    yield dict(base, history=hist[:i] + [st2] + hist[i + 1:], opts=opts, texts=texts)
+                if st.get("model") is not None:
+                    yield dict(base, history=hist[:i] + [dict(st, model=None)] + hist[i + 1:], opts=opts, texts=texts)
+            for k in sorted(opts):
+                yield dict(base, history=hist, opts={a: b for a, b in opts.items() if a != k}, texts=texts)
+            return
         if "text" not in case:
             return
         toks = case.get("toks")
         if toks:
             for i in range(len(toks)):
                 t2 = toks[:i] + toks[i + 1:]
-                yield {"text": " ".join(t2), "toks": t2, "origin": "shrunk"}
+                yield dict({"text": " ".join(t2), "toks": t2, "origin": "shrunk"},
+                           **({"copts": case["copts"]} if case.get("copts") else {}))
+            if case.get("copts"):
+                for k in sorted(case["copts"]):
+                    yield dict(case, copts={a: b for a, b in case["copts"].items() if a != k}, origin="shrunk")
         else:
             text = case["text"]
             lines = text.split("\n")
@@ -533,11 +772,17 @@ class Prop(Check):
             if r.chance(0.5):
                 toks = mutate(r, toks)
             cases.append({"text": render(r, toks), "toks": toks, "origin": "search"})
-        return cases
+        return list(history_cases(rng.fork("histories"), tier)) + cases
 
     def sample_view(self, case, obs):
         if "lexhyp" in obs:
             return {"case": case, "impl": obs}
+        if "hist" in obs:
+            rs = obs.get("results", [])
+            return {"origin": case.get("origin"), "history": case.get("history"), "opts": case.get("opts"),
+                    "steps": obs.get("steps"), "texts": len(case["texts"]),
+                    "accepted_by_both": sum(1 for r in rs if r["c"]["acc"] and r["t"]["acc"]),
+                    "rejected_by_both": sum(1 for r in rs if not r["c"]["acc"] and r["t"]["acc"] is False)}
         return {"text": case["text"][:300], "origin": case.get("origin"), "compiler": obs["compiler"], "direct": obs["direct"],
                 "tx": obs["tx"]}
 
